@@ -1,7 +1,7 @@
 """C37 — Bitswap exchange delivers requested blocks exactly once and cleans up (spec/BitswapNet)."""
 import json, os, threading
 
-A_DEV, F_DEV = "Dev_C37_SharedWantCancelled", "Dev_C37_RewantAfterCancel"
+A_DEV, F_DEV, G_DEV = "Dev_C37_SharedWantCancelled", "Dev_C37_RewantAfterCancel", "Dev_C37_CrossSessionCancelWipe"
 LEAK_DEVS = {A_DEV, "Dev_C37_LocalBlockWantLeak", "Dev_C37_BroadcastAfterCancel", "Dev_C37_LateWantAfterReceive",
              "Dev_C37_WantAfterDelivery", F_DEV}
 PKG = "bitswap/testinstance"
@@ -13,14 +13,14 @@ META = dict(
                 "connected holder or a local announcement, channel closes only complete-or-cancelled, settled want-list holds only keys of "
                 "open requests, no deadline miss for a request obliged to finish). BitswapProto models the client at the grain of its "
                 "goroutines (getter, pubsub, interest manager, session loop, want sender, peer want manager) plus servers and FIFO links; "
-                "TLC checks it exhaustively on five scenarios: the repaired design satisfies the contract incl. Cleanup at quiescence and "
+                "TLC checks it exhaustively on six scenarios: the repaired design satisfies the contract incl. Cleanup at quiescence and "
                 "liveness under fairness, the as-built configurations must fail (controls reproducing the recorded findings). "
                 "TLC-generated caller behaviours (placements, duplicate keys, shared sessions, cancel points, late and local block arrival) "
                 "are replayed on real testinstance/VirtualNetwork nodes and every recorded event of those runs and of random concurrent "
                 "2-6 node runs is validated by TLC against BitswapNet."),
     level_note=("Trusted: testnet.VirtualNetwork, mock routing, harness projection (CID<->index, peer<->node, byte equality) and its event "
                 "order (run mutex; Request/AddBlock/Cancel logged before the call, Deliver/Close after). Liveness on real code is a deadline "
-                "(30 s); want-list cleanup is read after a settle loop (10 s). Six open findings are named deviations with narrow guards."),
+                "(30 s); want-list cleanup is read after a settle loop (10 s). Seven open findings are named deviations with narrow guards."),
     technique="TLA+ contract + protocol model checked by TLC; TLC-generated scripts replayed on real nodes; recorded traces validated by TLC",
 )
 
@@ -57,13 +57,13 @@ def _runs(recs):
 
 def run(ctx):
     devs = set(ctx.open_devs())
-    env = dict(C37_LIVE_DEVS=int(bool(devs & {A_DEV, F_DEV})), C37_LEAK_DEVS=int(bool(devs & LEAK_DEVS)),
+    env = dict(C37_LIVE_DEVS=int(bool(devs & {A_DEV, F_DEV, G_DEV})), C37_LEAK_DEVS=int(bool(devs & LEAK_DEVS)),
                C37_PAR=6 if ctx.quick else 8)
     ctx.assumptions += ["VirtualNetwork delivers messages in order per receiver with the configured latency",
                         "blocks are only added, never deleted, during a run",
                         "liveness = completion within 30 s of a request whose keys are all held by neighbours (or announced locally)",
                         "want-list cleanup is observed after a settle loop of at most 10 s"]
-    ctx.cov["rule"] = ("M: BitswapProto scenarios Shared/Local/Two/Exhaust/Late, repaired design must pass, as-built must fail. "
+    ctx.cov["rule"] = ("M: BitswapProto scenarios Shared/Local/Two/Exhaust/Late/Cross, repaired design must pass, as-built must fail. "
                        "G: every behaviour of the caller-step generator (GenBitswapNet*: BFS over request/await/cancel/close/add/"
                        "cancel-session steps, 3 nodes, 2 blocks, <=2 requests incl. shared session and local arrival) or a seeded sample of "
                        "it, replayed on real nodes; expectation must/may/fin from the spec state; the recorded events validated by "
@@ -92,6 +92,8 @@ def run(ctx):
     if not q:
         tasks.update({
             "fixShared": mc("MCProtoSharedLive.cfg"), "fixLocal": mc("MCProtoLocalLive.cfg"),
+            "fixCross": mc("MCProtoCrossLive.cfg"),
+            "abCross": mc("MCProtoCrossAsBuiltLive.cfg", expect_violation=True),
             "abShared": mc("MCProtoSharedAsBuiltLive.cfg", expect_violation=True),
             "abLocal": mc("MCProtoLocalAsBuilt.cfg", expect_violation=True),
             "abTwo": mc("MCProtoTwoAsBuilt.cfg", expect_violation=True),
@@ -106,7 +108,7 @@ def run(ctx):
     res = _par(tasks)
     # controls: the as-built model must violate what the recorded findings say it violates
     want = {"abLocal": "Cleanup", "abTwo": "Cleanup", "abExh": "Cleanup", "abLate": "Cleanup", "adeTwo": "Cleanup",
-            "adeLate": "Cleanup", "abShared": "Temporal", "adeShared": "Temporal"}
+            "adeLate": "Cleanup", "abShared": "Temporal", "adeShared": "Temporal", "abCross": "Temporal"}
     for k, what in want.items():
         if k in res and not (res[k]["violated"] and what in res[k]["violated"]):
             ctx.broken("control %s: the as-built protocol model should violate %s, TLC says %s" % (k, what, res[k]["violated"]))
@@ -121,7 +123,7 @@ def run(ctx):
             return lst
         return ctx.rng.sample(lst, n)
     if q:
-        scripts = pick(res["gSess"], 40) + pick(res["gLocal"], 40) + pick(res["gGen"], 40)
+        scripts = pick(res["gSess"], 100) + pick(res["gLocal"], 40) + pick(res["gGen"], 40)
     else:
         scripts = pick(res["gSess"], 600) + pick(res["gLocal"], 200) + pick(res["gGen"], 500) + pick(res["gDeep"], 500) + \
                   pick(res["gSim"], 400)
@@ -137,6 +139,10 @@ def run(ctx):
     if not grecs:
         ctx.broken("replay produced no event trace")
         return
+    # runs whose deadline miss was already judged by the replay phase (3x policy) are not validated again, so that
+    # an unexcused Timeout does not hide what the other runs show
+    judged = {"g-%d" % r["i"] for r in bad if r.get("liveness") and not r.get("dev")}
+    grecs = [e for run_ in _runs(grecs) if run_[0].get("run") not in judged for e in run_]
 
     # ---------------------------------------------------------------- T
     nruns = 24 if q else 240
